@@ -336,6 +336,11 @@ Definition auth_ssh_code : list dstmt :=
   [DAssign "pCount" "0"; DAssign "ppCount" "0"; DRange "_" "forever" [DIf (DAtom "ready <-ctx.Done()") [DReturn "nil"] []; DCall "c.Read()"; DIf (DNot (DEq "err" "nil")) [DReturn "&result{nil, err}"] []; DIf (DEq "nb" "nil") [DCall "time.Sleep(c.ReadDelay)"; DContinue] []; DAssign "b" "append(b, nb...)"; DAssign "err" "c.sshMessageHandler(b)"; DIf (DNot (DEq "err" "nil")) [DReturn "&result{nil, err}"] []; DIf (DAtom "c.PromptPattern.Match(b)") [DReturn "&result{b, nil}"] []; DIf (DAtom "c.PasswordPattern.Match(b)") [DCall "pCount++"; DIf (DAtom "pCount > passwordSeenMax") [DReturn "&result{ nil, fmt.Errorf( ""%w: password prompt seen multiple times, assuming authentication failed"", util.ErrAuthError, ), }"] []; DAssign "err" "c.WriteAndReturn(p, true)"; DIf (DNot (DEq "err" "nil")) [DReturn "&result{nil, err}"] []; DAssign "b" "[]byte{}"; DContinue] []; DIf (DAtom "c.PassphrasePattern.Match(b)") [DCall "ppCount++"; DIf (DAtom "ppCount > passphraseSeenMax") [DReturn "&result{ nil, fmt.Errorf( ""%w: private key passphrase prompt seen multiple times,""+ "" assuming authentication failed"", util.ErrAuthError, ), }"] []; DAssign "err" "c.WriteAndReturn(pp, true)"; DIf (DNot (DEq "err" "nil")) [DReturn "&result{nil, err}"] []; DAssign "b" "[]byte{}"] []]].
 Definition auth_telnet_code : list dstmt :=
   [DAssign "uCount" "0"; DAssign "pCount" "0"; DRange "_" "forever" [DCall "c.ReadUntilAnyPrompt( ctx, []*regexp.Regexp{c.PromptPattern, c.UsernamePattern, c.PasswordPattern}, )"; DIf (DNot (DEq "err" "nil")) [DReturn "&result{nil, err}"] []; DIf (DEq "nb" "nil") [DCall "time.Sleep(c.ReadDelay)"; DContinue] []; DAssign "b" "append(b, nb...)"; DIf (DAtom "c.PromptPattern.Match(b)") [DReturn "&result{b, nil}"] []; DIf (DAtom "c.UsernamePattern.Match(b)") [DAssign "b" "[]byte{}"; DCall "uCount++"; DIf (DAtom "uCount > usernameSeenMax") [DReturn "&result{ nil, fmt.Errorf( ""%w: username prompt seen multiple times, assuming authentication failed"", util.ErrAuthError, ), }"] []; DAssign "err" "c.WriteAndReturn(u, true)"; DIf (DNot (DEq "err" "nil")) [DReturn "&result{nil, err}"] []; DContinue] []; DIf (DAtom "c.PasswordPattern.Match(b)") [DAssign "b" "[]byte{}"; DCall "pCount++"; DIf (DAtom "pCount > passwordSeenMax") [DReturn "&result{ nil, fmt.Errorf( ""%w: password prompt seen multiple times, assuming authentication failed"", util.ErrAuthError, ), }"] []; DAssign "err" "c.WriteAndReturn(p, true)"; DIf (DNot (DEq "err" "nil")) [DReturn "&result{nil, err}"] []] []]].
+(* driver/netconf/driver.go Driver.storeMessage, Driver.getMessage *)
+Definition store_message_code : list dstmt :=
+  [DCall "d.messagesLock.Lock()"; DCall "defer d.messagesLock.Unlock()"; DAssign "d.messages[i]" "b"].
+Definition get_message_code : list dstmt :=
+  [DCall "d.messagesLock.Lock()"; DCall "defer d.messagesLock.Unlock()"; DAssign "data" "d.messages[i]"; DCall "delete(d.messages, i)"; DReturn "data"].
 (* the option loops of the constructors (C19) *)
 Definition option_loops : list (string * dstmt) := [
   ("driver/generic/driver.go NewDriver",
